@@ -130,7 +130,7 @@ package ecs
 //@   !t.columns[j].isRelation || ((!__has(a.relationTables[j], t.columns[j].target.id) || !tidsHas(__get(a.relationTables[j], t.columns[j].target.id), t.id))
 //@        && (!__has(a.targetTables, t.columns[j].target.id) || !tidsHas(__get(a.targetTables, t.columns[j].target.id), t.id)))
 //@ func (*archetype).FreeTable
-//@   serves C15 C04
+//@   serves C15 C04 C03 C05
 //@   requires table != nil && archListsInv(a) && len(table.columns) == len(a.relationTables)
 //@   assumes  uint64(len(a.freeTables)) < 1<<32
 //@   loop 1 invariant lists: archListsInv(a) && len(table.columns) == len(a.relationTables)
